@@ -430,6 +430,9 @@ class DataFormat(object):
         assert key
         assert value is not None
         try:
+            if isinstance(value, str) and ("_" in value):
+                # Python source code can use underscores to group digits, numbers in a CID can not.
+                raise ValueError("underscore in number")
             result = int(value)
         except ValueError:
             raise errors.InterfaceError(
